@@ -77,14 +77,14 @@ var (
 // Prelude holds the nominal types.
 type Prelude struct {
 	S, S2, Node, Box, Emp, W *cadence.StructType
-	R, RBox               *cadence.ResourceType
-	Ev, EvA               *cadence.EventType
-	Ct                    *cadence.ContractType
-	En                    *cadence.EnumType
-	A                     *cadence.AttachmentType
-	I, I2, J              *cadence.StructInterfaceType
-	RI                    *cadence.ResourceInterfaceType
-	CI                    *cadence.ContractInterfaceType
+	R, RBox                  *cadence.ResourceType
+	Ev, EvA                  *cadence.EventType
+	Ct                       *cadence.ContractType
+	En                       *cadence.EnumType
+	A                        *cadence.AttachmentType
+	I, I2, J                 *cadence.StructInterfaceType
+	RI                       *cadence.ResourceInterfaceType
+	CI                       *cadence.ContractInterfaceType
 }
 
 func newPrelude() *Prelude {
